@@ -88,7 +88,9 @@ def install_common(pack):
 
     @pack.model("time.time", note="time.time() returns a real; no monotonicity assumed")
     def _time(interp, args, kwargs):
-        return REAL.fresh(interp.ctx, "time")
+        t = REAL.fresh(interp.ctx, "time")
+        interp.ctx.ghost["ret_time"] = t
+        return t
 
     @pack.model("time.sleep")
     def _sleep(interp, args, kwargs):
